@@ -3,7 +3,7 @@
 From Coq Require Import String Ascii List Bool Arith Lia.
 From KV Require Import Lib.Str Lib.StrOps Lib.ODict Gen.Tags Gen.Pipeline Gen.Templates Model.PreserveCore Model.Preserve Model.TagShape
                        Model.Engine Model.EngineSM Model.EngineDomain Model.EngineDomain16 Model.Parse16 Spec.RefExpand Spec.RefExpand16
-                       Proofs.EnginePipe Proofs.EngineWhole16.
+                       Proofs.EnginePipe Proofs.TagFree Proofs.EngineWhole16.
 Import ListNotations.
 Open Scope string_scope.
 Open Scope list_scope.
